@@ -359,6 +359,8 @@ class Evaluator:
             return self.array_binop(st, op, a, b)
         if isinstance(op, (ast.BitAnd, ast.BitOr, ast.BitXor)):
             return self.bitop(st, op, a, b)
+        if isinstance(op, ast.Mult) and isinstance(a, tuple) and is_scalar(b) and all(is_scalar(e) for e in a):
+            return self.list_repeat(st, list(a), b)
         if isinstance(a, str) or isinstance(b, str):
             raise Unsupported("string arithmetic")
         if isinstance(a, tuple) or isinstance(b, tuple):
